@@ -395,9 +395,344 @@ def gen_lean():
         f"def defaultMinAnchors : Nat := {int(defaults['min_anchors'])}",
         f"def defaultMaxIterations : Nat := {int(defaults['max_iterations'])}",
         f"def defaultQuantiles : List (Int × Nat) := [{rat(q[0])}, {rat(q[1])}]",
-        f"def defaultThreshold : Int × Nat := {rat(defaults['outlier_threshold'])}",
-        "end BiotiteModel.Gen.C16", ""]
+        f"def defaultThreshold : Int × Nat := {rat(defaults['outlier_threshold'])}"]
+    cmp_tree = ast.parse(open(os.path.join(paths.SRC, "biotite/structure/compare.py")).read())
+    geo_tree = ast.parse(open(os.path.join(paths.SRC, "biotite/structure/geometry.py")).read())
+    body += _gen_structure(tree, cmp_tree, geo_tree)
+    body += ["end BiotiteModel.Gen.C16", ""]
     return {"BiotiteModel/Gen/C16.lean": "\n".join(body)}
+
+
+# ---------------------------------------------------------------- translator, part 2 (pass 7: structural facts)
+def _u(node):
+    return ast.unparse(node).replace(" ", "")
+
+
+def _us(node, env):
+    """unparse with local names replaced by what they stand for (robust against renaming locals)."""
+    import copy
+
+    class T(ast.NodeTransformer):
+        def visit_Name(self, n):
+            return ast.parse(env[n.id], mode="eval").body if n.id in env else n
+    return _u(T().visit(copy.deepcopy(node)))
+
+
+def _need(cond, msg):
+    if not cond:
+        raise ValueError("superimpose.py no longer has the expected shape: " + msg)
+
+
+def _raise_class(stmts):
+    for st in stmts:
+        if isinstance(st, ast.Raise) and isinstance(st.exc, ast.Call):
+            return ast.unparse(st.exc.func)
+    return None
+
+
+def _sig_defaults(f):
+    names = [a.arg for a in f.args.args]
+    ds = f.args.defaults
+    return names, {n: ast.literal_eval(d) for n, d in zip(names[len(names) - len(ds):], ds)}
+
+
+def _gen_structure(tree, cmp_tree, geo_tree):
+    """Structural facts of the anchored source the hand-written model hard-codes, as Lean definitions."""
+    L = []
+    S = lambda x: '"' + str(x) + '"'                                  # noqa: E731
+    SL = lambda xs: "[" + ", ".join(S(x) for x in xs) + "]"             # noqa: E731
+    IL = lambda xs: "[" + ", ".join(str(int(x)) for x in xs) + "]"      # noqa: E731
+
+    # ---- AffineTransformation.__init__ : parameter order and the dimensionalities of _expand_dims
+    f = _find_func(tree, "__init__", "AffineTransformation")
+    params = [a.arg for a in f.args.args][1:]
+    dims = {}
+    for st in f.body:
+        if isinstance(st, ast.Assign) and isinstance(st.value, ast.Call) and _u(st.value.func) == "_expand_dims":
+            dims[st.targets[0].attr] = (ast.unparse(st.value.args[0]), ast.literal_eval(st.value.args[1]))
+    _need(len(dims) == 3, "__init__ does not store three _expand_dims(...) results")
+    L += ["/-- constructor parameters (the adapter passes them positionally) and `attr := _expand_dims(param, n)`. -/",
+          f"def ctorParams : List String := {SL(params)}",
+          "def ctorStores : List (String × String × Nat) := [" + ", ".join(f"({S(a)}, {S(dims[a][0])}, {dims[a][1]})" for a in sorted(dims)) + "]"]
+    f = _find_func(tree, "_expand_dims")
+    w = [st for st in f.body if isinstance(st, ast.While)]
+    _need(len(w) == 1 and _u(w[0].test) == "array.ndim<n_dims" and _u(w[0].body[0]) == "array=array[np.newaxis,...]",
+          "_expand_dims is not `while array.ndim < n_dims: array = array[np.newaxis, ...]`")
+    L += ['def expandDims : String := "prepend-axes-while-ndim<n"']
+
+    # ---- apply: model-count guard, copy of the input, result reshaped to the input shape
+    f = _find_func(tree, "apply", "AffineTransformation")
+    guard = [st for st in f.body if isinstance(st, ast.If) and _raise_class(st.body)]
+    _need(len(guard) == 1 and isinstance(guard[0].test, ast.Compare), "apply has not exactly one raising guard")
+    t = guard[0].test
+    _need(_u(t.left) == "mobile_coord.shape[0]" and isinstance(t.comparators[0], ast.Subscript), "apply guard does not compare mobile_coord.shape[0]")
+    attr = [n.attr for n in ast.walk(t.comparators[0]) if isinstance(n, ast.Attribute) and isinstance(n.value, ast.Name) and n.value.id == "self"]
+    _need(len(attr) == 1 and _u(t.comparators[0]) == f"self.{attr[0]}.shape[0]", "apply guard right-hand side is not self.<attr>.shape[0]")
+    copies = any(isinstance(st, ast.Assign) and _u(st.value) == "mobile_coord.copy()" for st in f.body)
+    reshape = any(isinstance(st, ast.Assign) and _u(st.value).endswith(".reshape(original_shape)") for st in f.body)
+    pre = [_u(st.value) for st in f.body if isinstance(st, ast.Assign) and isinstance(st.targets[0], ast.Name)
+           and st.targets[0].id == "mobile_coord"]
+    L += ["/-- `apply`: `if mobile_coord.shape[0] <cmp> self.<attr>.shape[0]: raise <exc>`; works on a copy; reshapes back. -/",
+          f"def applyGuard : List String := {SL([_cmp_name(t.ops[0]), attr[0], _raise_class(guard[0].body)])}",
+          f"def applyCopiesInput : Bool := {'true' if copies else 'false'}",
+          f"def applyReshapesBack : Bool := {'true' if reshape else 'false'}",
+          f"def applyInput : List String := {SL(pre)}"]
+
+    # ---- _reshape_to_3d: the ndim ladder
+    f = _find_func(tree, "_reshape_to_3d")
+    ladder = []
+
+    def walk_if(st):
+        _need(isinstance(st.test, ast.Compare) and _u(st.test.left) == "coord.ndim", "_reshape_to_3d test is not on coord.ndim")
+        act = _raise_class(st.body) and "raise:" + _raise_class(st.body) or _u(st.body[0])
+        ladder.append(f"{_cmp_name(st.test.ops[0])} {ast.literal_eval(st.test.comparators[0])} {act}")
+        if len(st.orelse) == 1 and isinstance(st.orelse[0], ast.If):
+            walk_if(st.orelse[0])
+        elif st.orelse:
+            ladder.append("else " + (_raise_class(st.orelse) and "raise:" + _raise_class(st.orelse) or _u(st.orelse[0])))
+    for st in f.body:
+        if isinstance(st, ast.If):
+            walk_if(st)
+    L += ["/-- `_reshape_to_3d`: the tests on `coord.ndim` in order. -/", f"def reshapeLadder : List String := {SL(ladder)}"]
+
+    # ---- as_matrix: size of the identity matrices, where the model count comes from; _3d_identity
+    f = _find_func(tree, "as_matrix", "AffineTransformation")
+    calls = [n for n in ast.walk(f) if isinstance(n, ast.Call) and _u(n.func) == "_3d_identity"]
+    _need(len(calls) == 3 and all(len(c.args) == 2 and not c.keywords for c in calls), "as_matrix does not build three _3d_identity(m, n)")
+    sizes = sorted({ast.literal_eval(c.args[1]) for c in calls})
+    cnt = {_u(c.args[0]) for c in calls}
+    _need(len(sizes) == 1 and len(cnt) == 1, "the three identity matrices differ")
+    cnt_name = next(iter(cnt))
+    cnt_src = [_u(st.value) for st in f.body if isinstance(st, ast.Assign) and _u(st.targets[0]) == cnt_name]
+    _need(len(cnt_src) == 1, "model count of as_matrix not found")
+    g = _find_func(tree, "_3d_identity")
+    z = [n for n in ast.walk(g) if isinstance(n, ast.Call) and _u(n.func) == "np.zeros"]
+    _need(len(z) == 1 and _u(z[0].args[0]) == "(m,n,n)" and [k.arg for k in z[0].keywords] == ["dtype"], "_3d_identity: np.zeros((m,n,n), dtype=…) not found")
+    diag = [st for st in g.body if isinstance(st, ast.Assign) and isinstance(st.targets[0], ast.Subscript)]
+    _need(len(diag) == 1 and _u(diag[0].targets[0]) == "matrices[:,indices,indices]" and ast.literal_eval(diag[0].value) == 1, "_3d_identity diagonal")
+    L += ["/-- `as_matrix`: identity size, source of the model count; `_3d_identity`: dtype of the zeros, diagonal value 1. -/",
+          f"def matrixSize : Nat := {sizes[0]}", f"def matrixCount : String := {S(cnt_src[0])}",
+          f"def identityDtype : String := {S(_u(z[0].keywords[0].value))}"]
+
+    # ---- superimpose: mask indexing, centroids of the FILTERED arrays, centring, argument order of the rotation, return
+    f = _find_func(tree, "superimpose")
+    names, dflt = _sig_defaults(f)
+    maskif = [st for st in f.body if isinstance(st, ast.If) and _u(st.test) == "atom_maskisnotNone"]
+    _need(len(maskif) == 1, "superimpose: `if atom_mask is not None` not found")
+    filt = {}
+    for st in maskif[0].body:
+        _need(isinstance(st, ast.Assign) and isinstance(st.value, ast.Subscript), "mask branch is not a pair of subscript assignments")
+        sl = st.value.slice
+        _need(isinstance(sl, ast.Tuple) and [_u(e) for e in sl.elts] == [":", "atom_mask", ":"], "mask is not applied as [:, atom_mask, :]")
+        filt[st.targets[0].id] = ast.unparse(st.value.value)
+    unf = {st.targets[0].id: _u(st.value) for st in maskif[0].orelse if isinstance(st, ast.Assign)}
+    _need(set(unf) == set(filt) and all(unf[k] == f"np.copy({filt[k]})" for k in filt), "unmasked branch is not np.copy of the same arrays")
+    src3d = {st.targets[0].id: _u(st.value) for st in f.body if isinstance(st, ast.Assign) and isinstance(st.targets[0], ast.Name)
+             and _u(st.value).startswith("_reshape_to_3d(coord(")}
+    role = {k: src3d[v][len("_reshape_to_3d(coord("):-2] for k, v in filt.items()}        # filtered var -> fixed/mobile
+    _need(sorted(role.values()) == ["fixed", "mobile"], "filtered arrays do not come from coord(fixed) / coord(mobile)")
+    cents, centred = {}, {}
+    for st in f.body:
+        if isinstance(st, ast.Assign) and isinstance(st.value, ast.Call) and _u(st.value.func) == "centroid":
+            a = _u(st.value.args[0])
+            _need(a in role, f"centroid is taken of `{a}`, not of a mask-filtered array")
+            cents[st.targets[0].id] = role[a]
+        if isinstance(st, ast.Assign) and isinstance(st.value, ast.BinOp) and isinstance(st.value.op, ast.Sub):
+            l, r = _u(st.value.left), _u(st.value.right)
+            _need(l in role and r.endswith("[:,np.newaxis,:]") and cents.get(r.split("[")[0]) == role[l],
+                  f"centring `{ast.unparse(st.value)}` does not subtract the array's own centroid")
+            centred[st.targets[0].id] = role[l]
+    rc = [n for n in ast.walk(f) if isinstance(n, ast.Call) and _u(n.func) == "_get_rotation_matrices"]
+    _need(len(rc) == 1 and len(rc[0].args) == 2 and all(_u(a) in centred for a in rc[0].args), "rotation is not computed from the two centred arrays")
+    ret = [st for st in f.body if isinstance(st, ast.Return)][-1].value
+    L += ["/-- `superimpose`: signature, mask application, what the centroids are taken of, centring, rotation arguments, result. -/",
+          f"def supParams : List String := {SL(names)}",
+          f"def supDefaults : List (String × String) := [" + ", ".join(f"({S(k)}, {S(v)})" for k, v in dflt.items()) + "]",
+          f"def supMaskSlice : String := {S('[:,atom_mask,:]')}",
+          f"def supCentroidOf : List String := {SL(sorted('filtered-' + v for v in cents.values()))}",
+          f"def supCentred : List String := {SL(sorted(centred.values()))}",
+          f"def supRotationArgs : List String := {SL([centred[_u(a)] for a in rc[0].args])}",
+          f"def supReturn : String := {S(_u(ret))}"]
+
+    # ---- _get_rotation_matrices: the covariance expression and that it reaches svd unchanged
+    f = _find_func(tree, "_get_rotation_matrices")
+    fparams = [a.arg for a in f.args.args]
+    body = [st for st in f.body if not (isinstance(st, ast.Expr) and isinstance(st.value, ast.Constant))]
+    _need(isinstance(body[0], ast.Assign) and isinstance(body[0].value, ast.Call) and _u(body[0].value.func) == "np.sum",
+          "first statement of _get_rotation_matrices is not cov = np.sum(...)")
+    c = body[0].value
+    _need(len(c.args) == 1 and isinstance(c.args[0], ast.BinOp) and isinstance(c.args[0].op, ast.Mult)
+          and [k.arg for k in c.keywords] == ["axis"], "covariance is not np.sum(a * b, axis=…)")
+    fac = []
+    for side in (c.args[0].left, c.args[0].right):
+        _need(isinstance(side, ast.Subscript) and isinstance(side.value, ast.Name) and isinstance(side.slice, ast.Tuple), "covariance factor is not name[...]")
+        el = [_u(e) for e in side.slice.elts]
+        _need(el.count("np.newaxis") == 1 and all(e in (":", "np.newaxis") for e in el) and len(el) == 4, "covariance factor slice")
+        fac.append(f"{fparams.index(side.value.id)}@{el.index('np.newaxis')}")
+    cov_name = body[0].targets[0].id
+    _need(isinstance(body[1], ast.Assign) and isinstance(body[1].value, ast.Call) and _u(body[1].value.func) == "np.linalg.svd"
+          and [_u(a) for a in body[1].value.args] == [cov_name] and not body[1].value.keywords,
+          "the covariance does not go straight (next statement, unmodified, no keywords) into np.linalg.svd")
+    L += ["/-- `_get_rotation_matrices(fixed, mobile)`: `cov = np.sum(p0[..newaxis@i] * p1[..newaxis@j], axis=k)` handed directly to svd. -/",
+          f"def rotParams : List String := {SL(fparams)}",
+          f"def covFactors : List String := {SL(fac)}", f"def covAxis : Int := {ast.literal_eval(c.keywords[0].value)}",
+          "def covDirectlyToSvd : Bool := true"]
+
+    # ---- _multi_matmul
+    f = _find_func(tree, "_multi_matmul")
+    r = [st for st in f.body if isinstance(st, ast.Return)][0].value
+    _need(_u(r) == "np.transpose(np.matmul(matrices,np.transpose(vectors,axes=(0,2,1))),axes=(0,2,1))", "_multi_matmul changed: " + ast.unparse(r))
+    L += ['def multiMatmul : String := "transpose(matmul(matrices, transpose(vectors,(0,2,1))),(0,2,1))"']
+
+    # ---- superimpose_without_outliers: everything the loop model hard-codes
+    f = _find_func(tree, "superimpose_without_outliers")
+    names, dflt = _sig_defaults(f)
+    g0 = [st for st in f.body if isinstance(st, ast.If)][0]
+    q = [st for st in f.body if isinstance(st, ast.Assign) and _u(st.targets[0]) == "quantiles"]
+    init = [st for st in f.body if isinstance(st, ast.Assign) and _u(st.value).startswith("np.ones(")]
+    loop = [st for st in f.body if isinstance(st, ast.For)]
+    _need(len(loop) == 1 and len(init) == 1 and len(q) == 1, "outlier loop / initial mask / quantile sorting not found")
+    lb = loop[0].body
+    sq = [st for st in lb if isinstance(st, ast.Assign) and isinstance(st.value, ast.BinOp) and isinstance(st.value.op, ast.Pow)]
+    _need(len(sq) == 1 and isinstance(sq[0].value.left, ast.Call), "squared distance expression not found")
+    dcall = sq[0].value.left
+    sup_call = [st for st in lb if isinstance(st, ast.Assign) and isinstance(st.value, ast.Call) and _u(st.value.func) == "superimpose"]
+    _need(len(sup_call) == 1 and len(sup_call[0].value.args) == 2 and not sup_call[0].value.keywords, "inner superimpose(fixed_sel, mobile_sel) call")
+    sel = {}
+    for st in lb:
+        if isinstance(st, ast.Assign) and isinstance(st.value, ast.Subscript) and isinstance(st.value.slice, ast.Tuple) \
+                and len(st.value.slice.elts) == 3 and _u(st.value.slice.elts[0]) == "...":
+            sel[st.targets[0].id] = _u(st.value.value)
+    coord_src = {st.targets[0].id: _u(st.value) for st in f.body if isinstance(st, ast.Assign) and _u(st.value).startswith("coord(")}
+    inner = [coord_src.get(sel.get(_u(a), ""), "?") for a in sup_call[0].value.args]
+    fit_out = [_u(e) for e in sup_call[0].targets[0].elts]
+    d_args = [(_u(a) == fit_out[0] and "superimposed") or coord_src.get(sel.get(_u(a), ""), "?") for a in dcall.args]
+    meanif = [st for st in lb if isinstance(st, ast.If) and "ndim" in _u(st.test)]
+    _need(len(meanif) == 1 and isinstance(meanif[0].test, ast.Compare), "mean over models not found")
+    mcall = meanif[0].body[0].value
+    qcall = [st for st in lb if isinstance(st, ast.Assign) and isinstance(st.value, ast.Call) and _u(st.value.func) == "np.quantile"]
+    _need(len(qcall) == 1 and isinstance(qcall[0].targets[0], ast.Tuple), "np.quantile call")
+    qn = [_u(e) for e in qcall[0].targets[0].elts]
+    ipr = [st for st in lb if isinstance(st, ast.Assign) and isinstance(st.value, ast.BinOp) and isinstance(st.value.op, ast.Sub)
+           and {_u(st.value.left), _u(st.value.right)} == set(qn)]
+    _need(len(ipr) == 1, "ipr = upper - lower not found")
+    bound = [st for st in lb if isinstance(st, ast.Assign) and isinstance(st.targets[0], ast.Subscript) and isinstance(st.value, ast.Compare)][0].value.comparators[0]
+    bl = [_u(x) for x in (bound.left, bound.right)]
+    _need(qn[1] in bl, "the bound does not start from the UPPER quantile")
+    mult = bound.right if _u(bound.left) == qn[1] else bound.left
+    _need({_u(mult.left), _u(mult.right)} == {"outlier_threshold", ipr[0].targets[0].id}, "the bound is not upper + outlier_threshold * ipr")
+    breaks = []
+    for st in lb:
+        if isinstance(st, ast.If) and any(isinstance(x, ast.Break) for x in st.body):
+            breaks.append("all" if _u(st.test).startswith("np.all(") else ("min_anchors" if "min_anchors" in _u(st.test) else _u(st.test)))
+    ret = [st for st in f.body if isinstance(st, ast.Return)][-1].value
+    L += ["/-- `superimpose_without_outliers`: signature, first guard, loop, squared distance, mean over models, quantiles, bound, exits, result. -/",
+          f"def wooParams : List String := {SL(names)}",
+          f"def wooFirstGuard : List String := {SL([_u(g0.test), _raise_class(g0.body)])}",
+          f"def wooQuantilePrep : String := {S(_u(q[0].value))}",
+          f"def wooInitialMask : String := {S(_us(init[0].value, coord_src))}",
+          f"def wooLoop : String := {S(_u(loop[0].iter))}",
+          f"def wooInnerFit : List String := {SL(inner)}",
+          f"def wooSqDist : List String := {SL([_u(dcall.func)] + d_args + ['**' + _u(sq[0].value.right)])}",
+          f"def wooMeanOverModels : List String := {SL([_cmp_name(meanif[0].test.ops[0]), ast.literal_eval(meanif[0].test.comparators[0]), _u(mcall.func)] + [k.arg + '=' + _u(k.value) for k in mcall.keywords])}",
+          f"def wooQuantileCall : List String := {SL([_us(a, {sq[0].targets[0].id: 'SQ_DIST'}) for a in qcall[0].value.args] + [k.arg for k in qcall[0].value.keywords])}",
+          f"def wooIprIsSecondMinusFirst : Bool := {'true' if (_u(ipr[0].value.left), _u(ipr[0].value.right)) == (qn[1], qn[0]) else 'false'}",
+          f"def wooBreaks : List String := {SL(breaks)}",
+          f"def wooReturn : String := {S(_u(ret))}"]
+
+    # ---- superimpose_homologs and its helpers
+    f = _find_func(tree, "superimpose_homologs")
+    names, dflt = _sig_defaults(f)
+    guards = []
+    for st in ast.walk(f):
+        if isinstance(st, ast.If) and _raise_class(st.body):
+            t = st.test
+            if isinstance(t, ast.BoolOp):
+                guards.append(type(t.op).__name__ + ":" + ",".join(_cmp_name(x.ops[0]) + ":" + _u(x.comparators[0]) for x in t.values) + ":" + _raise_class(st.body))
+            else:
+                guards.append(_cmp_name(t.ops[0]) + ":" + _u(t.comparators[0]) + ":" + _raise_class(st.body))
+    env = {}
+    for st in f.body:
+        if isinstance(st, ast.Assign) and isinstance(st.value, ast.Call) and isinstance(st.targets[0], ast.Name):
+            fn = _u(st.value.func)
+            if fn == "_get_backbone_anchor_indices":
+                env[st.targets[0].id] = f"BACKBONE_{_u(st.value.args[0])}"
+            elif fn == "_find_matching_anchors":
+                env[st.targets[0].id] = "MATCHED"
+    _need(sorted(env.values()) == ["BACKBONE_fixed", "BACKBONE_mobile", "MATCHED"], "backbone indices / matched anchors assignments")
+    guards = []
+    for st in ast.walk(f):
+        if isinstance(st, ast.If) and _raise_class(st.body):
+            t = st.test
+            parts = t.values if isinstance(t, ast.BoolOp) else [t]
+            guards.append((type(t.op).__name__ + ":" if isinstance(t, ast.BoolOp) else "") +
+                          ",".join(_us(x.left, env) + " " + _cmp_name(x.ops[0]) + " " + _us(x.comparators[0], env) for x in parts)
+                          + ":" + _raise_class(st.body))
+    fb = [st for st in f.body if isinstance(st, ast.If) and not _raise_class(st.body)]
+    _need(len(fb) == 1 and isinstance(fb[0].test, ast.Compare), "fallback test not found")
+    cols = {}
+    for st in fb[0].orelse:
+        if isinstance(st, ast.Assign):
+            cols[_us(st.value.value, env)] = _us(st.value.slice, env)
+    wc = [n for n in ast.walk(f) if isinstance(n, ast.Call) and _u(n.func) == "superimpose_without_outliers"]
+    _need(len(wc) == 1, "call of superimpose_without_outliers")
+    L += ["/-- `superimpose_homologs`: signature + defaults, raising guards in order, fallback test, alignment columns, forwarded arguments. -/",
+          f"def homParams : List String := {SL(names + (['**' + f.args.kwarg.arg] if f.args.kwarg else []))}",
+          f"def homDefaults : List (String × String) := [" + ", ".join(f"({S(k)}, {S(v)})" for k, v in dflt.items()) + "]",
+          f"def homGuards : List String := {SL(guards)}",
+          f"def homFallbackTest : List String := {SL([_us(fb[0].test.left, env), _cmp_name(fb[0].test.ops[0]), _us(fb[0].test.comparators[0], env)])}",
+          f"def homColumns : List (String × String) := [" + ", ".join(f"({S(k)}, {S(v)})" for k, v in sorted(cols.items())) + "]",
+          f"def homWooArgs : List String := {SL([_u(a) for a in wc[0].args[2:]] + [('**' if k.arg is None else k.arg + '=') + _u(k.value) for k in wc[0].keywords])}"]
+    f = _find_func(tree, "_get_backbone_anchor_indices")
+    strs = [n.value for n in ast.walk(f) if isinstance(n, ast.Constant) and isinstance(n.value, str) and len(n.value) < 4]
+    fl = [_u(n.func) for n in ast.walk(f) if isinstance(n, ast.Call) and _u(n.func).startswith("filter_")]
+    L += [f"def backboneAtoms : List String := {SL(sorted(zip(fl, strs)) and [a + ':' + b for a, b in sorted(zip(fl, strs))])}"]
+    f = _find_func(tree, "_find_matching_anchors")
+    loop = [st for st in f.body if isinstance(st, ast.For)][0]
+    _need(_u(loop.iter.func) == "zip" and isinstance(loop.target, ast.Tuple) and len(loop.target.elts) == 2, "chain loop is not `for a, b in zip(...)`")
+    zip_kw = [k.arg + "=" + _u(k.value) for k in loop.iter.keywords]
+    zpos = {e.id: i for i, e in enumerate(loop.target.elts)}
+    seq_of = {}
+    for st in loop.body:
+        if isinstance(st, ast.Assign) and "to_sequence(" in _u(st.value):
+            arg = [n for n in ast.walk(st.value) if isinstance(n, ast.Call) and _u(n.func) == "to_sequence"][0].args[0]
+            seq_of[st.targets[0].id] = zpos[_u(arg)]
+    add = [st for st in loop.body if isinstance(st, ast.AugAssign) and isinstance(st.value, ast.Tuple)]
+    _need(len(add) == 1 and isinstance(add[0].op, ast.Add) and len(add[0].value.elts) == 2, "`anchors += off_a, off_b` not found")
+    col_of = {_u(e): i for i, e in enumerate(add[0].value.elts)}
+    incs = []
+    for st in loop.body:
+        if isinstance(st, ast.AugAssign) and _u(st.target) in col_of:
+            _need(isinstance(st.op, ast.Add) and isinstance(st.value, ast.Call) and _u(st.value.func) == "len", "offset increment is not += len(seq)")
+            incs.append(f"{col_of[_u(st.target)]}<-{seq_of[_u(st.value.args[0])]}")
+    inits = {st.targets[0].id: ast.literal_eval(st.value) for st in f.body if isinstance(st, ast.Assign) and _u(st.targets[0]) in col_of}
+    score = [n for n in ast.walk(loop) if isinstance(n, ast.Compare) and "score_matrix[" in _u(n.left)]
+    _need(len(score) == 1, "positive-score filter not found")
+    al = [n for n in ast.walk(loop) if isinstance(n, ast.Call) and _u(n.func) == "align_optimal"][0]
+    L += ["/-- `_find_matching_anchors`: column c of the anchors is offset by a counter advanced by the length of the sequence",
+          "    of zip position p (`c<-p`), counters start at 0, zip is strict, only positively scoring columns, one alignment. -/",
+          f"def anchorOffsetIncrements : List String := {SL(sorted(incs))}",
+          f"def anchorOffsetStart : List Int := {IL(inits[k] for k in sorted(inits))}",
+          f"def chainZip : List String := {SL(zip_kw)}",
+          f"def scoreFilter : List String := {SL([_cmp_name(score[0].ops[0]), _u(score[0].comparators[0])])}",
+          f"def alignKeywords : List String := {SL(sorted(k.arg + '=' + _u(k.value) for k in al.keywords))}",
+          f"def alignArgs : List String := {SL([str(seq_of.get(_u(a), _u(a))) for a in al.args])}"]
+
+    # ---- compare.rmsd / _sq_euclidian, geometry.centroid
+    f = _find_func(cmp_tree, "rmsd")
+    r = [st for st in f.body if isinstance(st, ast.Return)][0].value
+    g = _find_func(cmp_tree, "_sq_euclidian")
+    gg = [st for st in g.body if isinstance(st, ast.If)][0]
+    dif = [st for st in g.body if isinstance(st, ast.Assign) and isinstance(st.value, ast.BinOp) and isinstance(st.value.op, ast.Sub)][0]
+    h = _find_func(geo_tree, "centroid")
+    hr = [st for st in h.body if isinstance(st, ast.Return)][0].value
+    cenv = {st.targets[0].id: _u(st.value) for st in g.body if isinstance(st, ast.Assign) and _u(st.value).startswith("coord(")}
+    L += ["/-- `rmsd`, `_sq_euclidian` (compare.py) and `centroid` (geometry.py). -/",
+          f"def rmsdExpr : String := {S(_u(r))}",
+          f"def sqEuclidGuard : List String := {SL([_us(gg.test, cenv), _raise_class(gg.body)])}",
+          f"def sqEuclidDiff : String := {S(_us(dif.value, cenv))}",
+          f"def centroidExpr : String := {S(_u(hr))}"]
+    return L
 
 
 # ---------------------------------------------------------------- stubs for the exact streams
